@@ -155,4 +155,14 @@ var props = map[string]*Prop{
 			{Name: "oversized", Pkg: "internal/cli", Test: "TestVerifC04Oversized", Shards: sh(2, 2), TimeoutS: sh(1800, 3600)},
 		},
 	},
+	"C05": {
+		Level: "exploration",
+		Rule: "every base function of the program family (57 bodies: with and without loops, cross-package calls, string literals, defer/go/select/panic, closures, recursion, methods) is indexed with the real topology extraction and IndexFunction into a fresh Pebble database (in-memory FS) and a JSON store; every variant that differs only in identifier names (params/results/locals at every site and all together, labels, the function itself), formatting/comments and declaration order (every applicable site + compositions), plus the identical source, is scanned in exact and full mode at thresholds {0.01,0.5,0.75,0.9,0.99,1.0} against two database contents (signature alone; with decoys sharing its topology hash, its fuzzy hash, or nothing). Oracle: an alert for the indexed signature with confidence exactly 1.0. An end-to-end unit runs the built `sfw index` then `sfw scan` binary on 8 bodies, both back ends. Non-trivial = distinct (body, variant).",
+		Assumptions: []string{"'identifier names' = identifiers the function itself declares, including its own name; renaming a same-package callee is not part of this check", "decoys are built to score below 1.0 so that exact mode (which returns one best alert) must return the indexed signature"},
+		Bounds:      map[string]string{"quick": "whole family x renaming catalogue", "thorough": "same"},
+		Units: []Unit{
+			{Name: "index-then-scan", Pkg: "internal/cli", Test: "TestVerifC05", Shards: sh(16, 16), TimeoutS: sh(1800, 3600)},
+			{Name: "cli-index-scan", Pkg: "internal/cli", Test: "TestVerifC05CLI", Shards: sh(8, 8), TimeoutS: sh(1800, 3600), Builds: []Build{{Pkg: "cmd/sfw", Out: "sfw"}}},
+		},
+	},
 }
